@@ -347,6 +347,15 @@ def run(ctx):
                                   {"kind": "failing-input", "stream": stream, "case": case, "checker": got,
                                    "replay_cmd": "%s replay <file with the case line> | cut -f1 | %s %s" % (exe, verif.driver_path(DRV), stream),
                                    "signature": sig}, signature=sig)
+                elif got == "bad-input":
+                    # the exact checker found the GENERATED input outside the contract's precondition (not strictly valid: two tiny rings of
+                    # an arbitrary-double archipelago touch or overlap): the property says nothing about it.  Rare by construction; counted,
+                    # and an alarm only if the generator has degenerated (more than 1 % of the stream)
+                    nbad = sum(1 for d_ in r["disagreements"] if d_[3] == "bad-input") + (r.get("more_disagreements", 0) if len(r["disagreements"]) >= 50 else 0)
+                    corr[stream]["generated_inputs_outside_precondition"] = nbad
+                    if nbad > max(5, r["cases"] // 100):
+                        ctx.violation("%s: %d of %d generated inputs are outside the precondition of the contract (generator degenerated)" % (stream, nbad, r["cases"]),
+                                      {"kind": "tie-broken", "correspondence": stream, "case": case, "checker": got}, nofail=True)
                 else:
                     ctx.violation("%s: the driver could not judge a generated case (%s)" % (stream, got),
                                   {"kind": "tie-broken", "correspondence": stream, "case": case, "checker": got}, nofail=True)
